@@ -48,7 +48,7 @@ type overlapOpts struct {
 	ExtraScopes int                        // larger scope trees
 	ExtraWarm   int                        // more warm-up resolutions (so that scopes own instances)
 	Prep        func(*kit.World, *rapid.T) // prepare the world before Build (fault plans)
-	Points      []string                   // GateInternal: park at the n-th passage of one of these named points (nil = any point)
+	Points      []string                   // GateInternal: park at the n-th passage of a point whose name starts with one of these (nil = any point)
 }
 
 func obsOfKind(r *kit.Runner, from int, kind string) *kit.Obs {
@@ -277,7 +277,7 @@ func (c *overlapCase) run() {
 	var aGoid atomic.Int64
 	count := 0
 	pk := kit.NewParker(func(gp kit.GatePoint) bool {
-		if gp.Goid != aGoid.Load() || gp.Kind != c.GateKind || (c.WantPoint != "" && gp.Point != c.WantPoint) {
+		if gp.Goid != aGoid.Load() || gp.Kind != c.GateKind || (c.WantPoint != "" && !strings.HasPrefix(gp.Point, c.WantPoint)) {
 			return false
 		}
 		count++ // only thread A gets here, no lock needed
@@ -570,7 +570,7 @@ func TestC11GetSchedules(t *testing.T) {
 	g.ChainBias = true
 	oo := overlapOpts{Gen: g, AKinds: []string{"get"}, BKinds: []string{"same-get", "get", "dependent-get", "dependent-get", "dependent-get"},
 		GateKind: []int{kit.GateInternal, kit.GateInternal, kit.GateCtorExit}, ExtraWarm: 1,
-		Points: []string{"scope.setInstance.tracked", "scope.setInstance.tracked", "scope.resolve.miss", "scope.resolve.locked", "scope.Get.checked"}}
+		Points: []string{"scope.setInstance.", "scope.setInstance.", "scope.resolve.miss", "scope.resolve.locked", "scope.Get.checked"}}
 	runOverlapTest(t, "C11", "get-schedules",
 		"controlled two-thread programs: thread A resolves a service and is parked at the n-th schedule point inside godi (after a cache miss, after taking the construction lock, between tracking an instance for disposal and publishing it in the scope's cache) or at a constructor exit; thread B resolves the same or another service of the same scope (often one that depends on what A is constructing) to completion or until it blocks; A is released, everything is closed; oracle: no instance is closed while an instance of the same owner that received it as a dependency is still open (the unambiguous core of the order rule when constructions overlap), no hang, no panic; non-trivial = A was parked",
 		oo,
